@@ -45,6 +45,7 @@ VerdictC16(c, ev) ==
 \cup Viol("DOY_FRAC",  ev.doy2h = 2 * c.doy + 1)
 \cup Viol("GET_DOY",   ev.gd = c.doy)
 \cup Viol("DOY2DATE",  ev.dd = <<c.y, c.m, c.d>>)
+\cup Viol("DOY2DATE_FRACTION", ev.ddh = <<c.y, c.m, 2 * c.d + 1>>)       \* day-of-year n + 1/2 is noon of that civil day
 \cup Viol("LEAP",      ev.lp = (IF Leap(c.y) THEN 1 ELSE 0))
 \cup Viol("YEAR_INT",  /\ FloorInt(ev.yr0) = c.y /\ FloorInt(ev.yr12) = c.y /\ FloorInt(ev.yr23) = c.y
                        /\ (c.doy = 1 => ev.yr0 = FromInt(c.y)))
